@@ -175,6 +175,17 @@ func runFScheduled(s *fsched, fn func(), unstick func(), atQuiescent func(k int)
 			default:
 			}
 			quiescent++
+			if quiescent > 300000 {
+				// a livelock (operations keep coming, the call never returns) counts as a hang too: cancel the
+				// context once; if that does not end it either, give up (synctest reports the leftover goroutines)
+				if !stuck {
+					stuck = true
+					unstick()
+				}
+				if quiescent > 400000 {
+					return
+				}
+			}
 			atQuiescent(quiescent)
 			if !s.releaseOne() {
 				if stuck {
